@@ -73,11 +73,19 @@ struct GuardWorld {
 		case 8: { int o = 1 - gi; if(!M_.exists || mg[o].exists) return false; trace += strf("g%d=G(move(g%d)) ", o, gi); g[o].emplace(std::move(*G_)); mg[o] = M_; M_ = {true, -1, false}; break; }
 		case 9: { int o = 1 - gi; if(!M_.exists || !mg[o].exists) return false; trace += strf("g%d=move(g%d) ", o, gi); *g[o] = std::move(*G_); /* o's old hold is released, gi becomes empty */ mg[o] = M_; M_ = {true, -1, false}; break; }
 		case 10: { if(gi) return false; if(!mg[0].exists || !mg[1].exists) return false; trace += "swap(g0,g1) "; swap(*g[0], *g[1]); std::swap(mg[0], mg[1]); break; }
+		case 11: { // self move-assignment: whether the guard keeps its lock or ends up empty is its business (std::unique_lock releases,
+			// a copy-and-swap implementation keeps) - but what it then says about itself must agree with the mutex: the model adopts
+			// the guard's own answer and check() compares it with the mutex call log
+			if(!M_.exists) return false; trace += strf("g%d=move(g%d) ", gi, gi);
+			G &self = *G_; *G_ = std::move(self);
+			M_.locked = G_->is_locked(); if(!M_.locked) M_.mtx = -1;
+			break; }
+		case 12: { if(!M_.exists) return false; trace += strf("swap(g%d,g%d) ", gi, gi); swap(*G_, *G_); break; }
 		default: return false;
 		}
 		return true;
 	}
-	static constexpr int NOPS = 22;
+	static constexpr int NOPS = 26;
 
 	void finish() {
 		if(bad) return;
@@ -118,7 +126,7 @@ static void guard_sequences(unsigned len, uint64_t nrand) {
 		});
 		note_distinct(mix(hash_str(mode), h)); count("guard_sequences");
 	}
-	rec.notes[mode] = strf("all admissible operation sequences of length %u over 22 operations (construct locked on m0/m1, dont_lock, adopt_lock, default, lock, unlock, destroy, move-construct, move-assign, swap; two guards, two mutexes)", len);
+	rec.notes[mode] = strf("all admissible operation sequences of length %u over 26 operations (construct locked on m0/m1, dont_lock, adopt_lock, default, lock, unlock, destroy, move-construct, move-assign, swap, self-move-assign, self-swap; two guards, two mutexes)", len);
 }
 
 // frg::guard() helpers and the QS lock_guard
